@@ -312,8 +312,16 @@ pub fn gen_scenario(g: &mut Xo, bias: Bias) -> VmSc {
     }
     let rebuild_at = if g.chance(1, 4) { Some(g.urange(0, 20)) } else { None };
 
+    // --- deep nesting (stored compactly): the whole program inside 65..=200 nested blocks, so that the
+    // stepped run still reaches the inside; rarely 201..=1200
+    let mut wrap = 0;
+    if caps.exec >= 1 && g.chance(1, 200) {
+        wrap = if g.chance(1, 40) { g.urange(201, 1200) } else { g.urange(65, 200) };
+    }
+    let limit = if wrap > 0 && limit < wrap && g.coin() { usize::MAX } else { limit };
+
     VmSc {
-        init: VmInit { caps, int, float, bool, program, inputs: sw.names, limit },
+        init: VmInit { caps, int, float, bool, program, inputs: sw.names, limit, wrap },
         faults,
         limits,
         rebuild_at,
@@ -323,6 +331,15 @@ pub fn gen_scenario(g: &mut Xo, bias: Bias) -> VmSc {
 /// Shrink candidates shared by C01/C02/C03.
 pub fn shrink(sc: &VmSc) -> Vec<VmSc> {
     let mut out = Vec::new();
+    if sc.init.wrap > 0 {
+        for w in [0, sc.init.wrap / 2, sc.init.wrap - 1] {
+            if w != sc.init.wrap {
+                let mut s = sc.clone();
+                s.init.wrap = w;
+                out.push(s);
+            }
+        }
+    }
     let with_prog = |p: Vec<Prog>| {
         let mut s = sc.clone();
         s.init.program = p;
